@@ -878,7 +878,33 @@ impl Suite for Capture {
             };
             lines.push(format!("lfilter {i} {}", f.tok()));
         }
-        if rng.chance(1, 4) {
+        // values whose `Debug` impl itself uses tracing (a lazily loaded resource whose loader logs),
+        // recorded on a span later: the event they emit while being rendered reaches the same capture
+        // layer. Oracle-only (the model has no such values); no global filter in these cases.
+        let mut nested = false;
+        if idx % 9 == 4 {
+            let mut used_event_sites: Vec<usize> = vec![];
+            for op in &mut prog.ops {
+                match op {
+                    POp::Evt { k, .. } => {
+                        if !used_event_sites.contains(k) {
+                            used_event_sites.push(*k);
+                        }
+                    }
+                    POp::Rec { vals, .. } if !used_event_sites.is_empty() && !vals.is_empty() && rng.chance(2, 3) => {
+                        let pos = rng.below(vals.len());
+                        let k = *rng.pick(&used_event_sites);
+                        vals[pos].1 = format!("dbgev:{k}.{}", crate::proto::hex(format!("Lazy({})", rng.below(3)).as_bytes()));
+                        nested = true;
+                    }
+                    _ => {}
+                }
+            }
+            if nested {
+                lines.push("nestedtracing 1".into());
+            }
+        }
+        if rng.chance(1, 4) && !nested {
             lines.push(format!("gfilter {}", rng.range(1, 4)));
         }
         if rng.chance(1, 3) {
@@ -890,7 +916,7 @@ impl Suite for Capture {
                 lines.push(format!("probe {} {}", rng.below(prog.ops.len().max(1)), rng.below(6)));
             }
         }
-        if focus == "C16" && rng.chance(1, 3) {
+        if focus == "C16" && rng.chance(1, 3) && !nested {
             // only for C16 (no panic, independence): under per-layer filtering the contextual parent is
             // tracing-subscriber's nearest *entered* span enabled for the filter, which is not the
             // model's (and C05's) nearest captured ancestor when spans are entered out of hierarchy order
@@ -972,7 +998,29 @@ impl Suite for Capture {
             return out;
         }
         let cfg = Config::parse(&rest);
-        let (storages, panicked, fe_log) = run_capture_log(&prog, &cfg);
+        let nested_tracing = rest.iter().any(|l| l == "nestedtracing 1")
+            || prog.ops.iter().any(|o| matches!(o, POp::New { vals, .. } | POp::Rec { vals, .. } | POp::Evt { vals, .. } if vals.iter().any(|v| v.1.starts_with("dbgev:"))));
+        let (storages, panicked, fe_log) = if nested_tracing {
+            // user code (a `Debug` impl) re-enters tracing from inside a layer callback: run under a
+            // watchdog, a callback that never returns must not hang the whole check
+            let (tx, rx) = std::sync::mpsc::channel();
+            let (p2, l2) = (prog.clone(), rest.clone());
+            std::thread::spawn(move || {
+                let cfg = Config::parse(&l2);
+                let _ = tx.send(run_capture_log(&p2, &cfg));
+            });
+            match rx.recv_timeout(std::time::Duration::from_secs(10)) {
+                Ok(r) => r,
+                Err(_) => {
+                    out.fails.push("C16 a capture layer callback did not return within 10 s: a recorded value whose `Debug` impl emits a tracing event is rendered while the layer holds its storage lock, and the event's own callback waits for that lock (deadlock)".into());
+                    out.fails.push("C05 the program did not run to completion under the capture layer (deadlock in a layer callback)".into());
+                    out.tags.push("nested-tracing".into());
+                    return out;
+                }
+            }
+        } else {
+            run_capture_log(&prog, &cfg)
+        };
         if panicked {
             out.obs.push("panic".into());
             out.fails.push("C16 a capture layer callback panicked".into());
@@ -985,7 +1033,8 @@ impl Suite for Capture {
             let want_events = prog.ops.iter().filter(|o| matches!(o, POp::Evt { k, .. } if passes(*k))).count();
             let got_spans = fe_log.iter().filter(|c| matches!(c, program::FeCall::NewSpan { .. })).count();
             let got_events = fe_log.iter().filter(|c| matches!(c, program::FeCall::Event { .. })).count();
-            if got_spans != want_spans || got_events != want_events {
+            // (values that emit events while they are rendered add events of their own)
+            if got_spans != want_spans || (got_events != want_events && !nested_tracing) {
                 let msg = format!("the program creates {want_spans} spans and {want_events} events that pass the global filter, but only {got_spans} spans and {got_events} events were emitted to the subscriber (a layer's own filter must not disable call sites for the whole stack)");
                 out.fails.push(format!("C05 {msg}"));
                 out.fails.push(format!("C16 {msg}"));
@@ -1053,7 +1102,9 @@ impl Suite for Capture {
             }
         }
         // ---- C16: each layer captures what it would capture alone
-        if cfg.layers.len() > 1 || !cfg.pass.is_empty() {
+        // (not with values that emit events while they are rendered: every layer that looks at the
+        // values renders them, so the number of those events depends on the number of layers)
+        if (cfg.layers.len() > 1 || !cfg.pass.is_empty()) && !nested_tracing {
             for (i, f) in cfg.layers.iter().enumerate() {
                 let solo = Config { layers: vec![f.clone()], global: cfg.global, pass: vec![], per_layer: cfg.per_layer, nested: cfg.nested, probes: vec![] };
                 let (st, p) = run_capture(&prog, &solo);
@@ -1070,6 +1121,12 @@ impl Suite for Capture {
                 }
             }
             out.tags.push("multi-layer-or-pass".into());
+        }
+        if nested_tracing {
+            // not comparable with the model (it has no values whose rendering emits events)
+            out.obs.clear();
+            out.docs.clear();
+            out.tags.push("nested-tracing".into());
         }
         if cfg.layers.iter().any(|f| *f == Filt::InSpan) {
             // not comparable with the model (its filters are functions of the call site)
